@@ -27,7 +27,7 @@ def typecond_unit(kf):
     u.shim_conformance('src/dynamic/object.rs', ['struct Object'], [('name', 'String'), ('implements', 'IndexSet<String>')])
     u.spec(SPEC, 'DoesFragmentTypeApply (dynamic)')
     carve = u.carve('C02-union-type-condition', '!(type_condition is Some && unions.possible.view().contains_key(type_condition->Some_0@))')
-    u.extract_fragment(F, ['fn collect_fields'], 'let type_condition_matched = match type_condition {', '_ => false, };', name='type_condition_matched',
+    u.extract_fragment(F, ['fn collect_fields'], 'let type_condition_matched = match type_condition {', 'if type_condition_matched {', name='type_condition_matched', end_exclusive=True,
                        header='fn type_condition_matched(type_condition: Option<&str>, object: &Object, unions: &Unions) -> (r: bool)',
                        footer='    type_condition_matched\n}',
                        rewrites=[Sub('type_condition == introspection_type_name', 'type_condition == object.name.as_str()', rule='R-ty')],
